@@ -257,7 +257,9 @@ def atoms(body, op, depth=0):
                 out |= atoms(body, x, depth + 1)
             return out
         if d is not None and d[0] == "call" and proj:
-            return {("call", d[1])}
+            # a field of a call result (e.g. `ArrayDeserializer::new(..)?.len`): the call and the field read
+            names = [n for n in mir.place_fields(place) if n not in ("0", "1") or len(mir.place_fields(place)) == 1]
+            return {("call", d[1])} | ({("field", names[-1])} if names else set())
     out = set()
     names = mir.place_fields(place)
     for p in proj:
